@@ -4,7 +4,7 @@ import regexcommon as rc
 
 LEVEL = "model_checking"
 ROUTES = ["pipe", "nfa0", "min", "elim"]
-FAMS = ["F1", "F2", "F3", "F4", "F5", "F6", "F7", "F8", "F9", "F10", "F12"]
+FAMS = ["F1", "F2", "F3", "F4", "F5", "F6", "F7", "F8", "F9", "F10", "F12", "F13"]
 
 
 def run(ck):
